@@ -7,7 +7,7 @@ the property statement over the abstract tree of contracts/etree_model.py.
 import z3
 
 from pyvc.contracts import FnContract, LoopSpec, Raises
-from pyvc.values import NONE, VBool, VExt, VInt, VNoneT, VRef, VSeq, VStr, VTuple, VUnk, ext_sort, fresh_name
+from pyvc.values import NONE, VBool, VBytes, VExt, VInt, VNoneT, VRef, VSeq, VStr, VTuple, VUnk, ext_sort, fresh_name
 from pyvc.verify import Maker, p_bool, p_int, p_obj, p_opt, p_str
 
 from contracts import c02_exec as X
@@ -2181,7 +2181,193 @@ def empty_element_obligations(repo, tier):
     return {"obligations": obls, "functions": [], "undecided": []}
 
 
-EXTRA = [bounded_native, fragment_obligations, empty_element_obligations]
+# =====================================================================================
+# RTF \\uN escape runs  --  rtf_extractor.py::_decode_unicode_run  (used by both strippers)
+#
+# Statement: the values N of consecutive \\uN escapes are signed 16-bit UTF-16 code units (RTF 1.9).  With u_i = N_i mod 2^16:
+#   text([])            = ""
+#   text(h, l, rest..)  = chr(0x10000 + (h - 0xD800) * 0x400 + (l - 0xDC00)) ++ text(rest)   h high surrogate, l low surrogate
+#   text(u, rest..)     = U+FFFD ++ text(rest)                                                u a surrogate without partner
+#   text(u, rest..)     = chr(u) ++ text(rest)                                                otherwise
+# -- one character per pair: a character beyond the BMP is not lost and nothing that is not in the source appears.
+# Contract: result == text(units of the run), for runs of 0..3 escapes with ARBITRARY values (every window the definition
+# looks at is covered; the count is the bound, stated in the id).  Assumed models: the pattern's findall yields the digit
+# groups in order (pattern text checked, any other pattern: unknown), int() of such a group parses, int.to_bytes(2, order),
+# bytes.join, and the utf-16 codec with errors="replace" (== the definition above).  Characters are an uninterpreted
+# injective `chr` (z3's own characters stop at U+2FFFF).
+# =====================================================================================
+U16_PATTERNS = {r"\\u(-?\d+)\??"}
+CHR = z3.Function("py.chr", I, S)
+CODE = z3.Function("py.ord", S, I)
+REPLACEMENT = CHR(z3.IntVal(0xFFFD))
+
+
+def utf16_text(units):
+    if not units:
+        return lit("")
+    u = units[0]
+    sur = z3.And(u >= 0xD800, u <= 0xDFFF)
+    one = cc(z3.If(sur, REPLACEMENT, CHR(u)), utf16_text(units[1:]))
+    if len(units) >= 2:
+        v = units[1]
+        pair = z3.And(u >= 0xD800, u <= 0xDBFF, v >= 0xDC00, v <= 0xDFFF)
+        return z3.If(pair, cc(CHR(0x10000 + (u - 0xD800) * 0x400 + (v - 0xDC00)), utf16_text(units[2:])), one)
+    return one
+
+
+def _chr_facts(terms):
+    """Instances of `chr is injective and yields one character` for every chr application in the given terms."""
+    seen, out, todo = set(), [], list(terms)
+    while todo:
+        t = todo.pop()
+        if t.get_id() in seen:
+            continue
+        seen.add(t.get_id())
+        if z3.is_app(t):
+            if t.decl().eq(CHR):
+                out += [z3.Length(t) == 1, CODE(t) == t.arg(0)]
+            todo.extend(t.children())
+    return out
+
+
+class RtfUnicodeExecutor(C02FullExecutor):
+    """Models needed by the escape decoder (pack-local): x & (2^k - 1) on an unbounded int as x mod 2^k, int.to_bytes,
+    bytes.join over parts of known length, bytes.decode('utf-16-le' / 'utf-16-be', errors='replace'), chr as CHR."""
+    MAX_RUN = 3
+
+    def add_vc(self, kind, label, pc, goal, note="", loc=""):
+        facts = _chr_facts(list(pc) + [goal, REPLACEMENT])
+        return super().add_vc(kind, label, list(pc) + facts + [REPLACEMENT == lit("\ufffd")], goal, note=note, loc=loc)
+
+    def binop(self, st, op, a, b, node, inplace=False):
+        if op == "BitAnd" and isinstance(a, VInt) and isinstance(b, VInt):
+            for x, m in ((a, b), (b, a)):
+                mc = m.const()
+                if mc is not None and mc > 0 and (mc & (mc + 1)) == 0 and x.const() is None and not z3.is_bv(x.t):
+                    return [(st, VInt(x.t % (mc + 1)))]
+        return super().binop(st, op, a, b, node, inplace)
+
+    def b_chr(self, st, args, kwargs, node):
+        v = args[0]
+        if isinstance(v, VInt):
+            t = ops_int_term(v)
+            st = self.fork_raise(st, z3.Or(t < 0, t > 0x10FFFF), "ValueError")
+            return [] if st is None else [(st, VStr(CHR(t)))]
+        return super().b_chr(st, args, kwargs, node)
+
+    def call_method(self, st, obj, name, args, kwargs, node):
+        if isinstance(obj, VInt) and name == "to_bytes":
+            n = (args[0] if args else kwargs.get("length", VInt(1))).const()
+            order = (args[1] if len(args) > 1 else kwargs.get("byteorder", VStr("big"))).const()
+            if n is None or order not in ("little", "big") or kwargs.get("signed") is not None:
+                raise X.Unsupported("int.to_bytes with symbolic length / order")
+            t = ops_int_term(obj)
+            st = self.fork_raise(st, z3.Or(t < 0, t >= 256 ** n), "OverflowError")
+            if st is None:
+                return []
+            items = [VInt((t / (256 ** k)) % 256) for k in range(n)]
+            return [(st, VBytes(items if order == "little" else items[::-1]))]
+        return super().call_method(st, obj, name, args, kwargs, node)
+
+    def bytes_method(self, st, obj, name, args, kwargs, node):
+        if name == "join" and len(args) == 1:
+            parts = self.concrete_items(st, args[0])
+            if parts is not None and all(isinstance(x, VBytes) for x in parts):
+                out = []
+                for k, x in enumerate(parts):
+                    out += (list(obj.items) if k else []) + list(x.items)
+                return [(st, VBytes(out))]
+            raise X.Unsupported("bytes.join over parts of unknown length")
+        if name == "decode":
+            enc = (args[0] if args else kwargs.get("encoding", VStr("utf-8"))).const()
+            err = (args[1] if len(args) > 1 else kwargs.get("errors", VStr("strict"))).const()
+            enc = enc.lower().replace("_", "-") if isinstance(enc, str) else None
+            if enc in ("utf-16-le", "utf-16-be", "utf-16le", "utf-16be") and err == "replace":
+                bs = [ops_int_term(x) for x in obj.items]
+                lo, hi = (0, 1) if enc.endswith("le") else (1, 0)
+                units = [bs[2 * k + lo] + 256 * bs[2 * k + hi] for k in range(len(bs) // 2)]
+                text = utf16_text(units)
+                return [(st, VStr(cc(text, REPLACEMENT) if len(bs) % 2 else text))]      # a dangling byte is not a character
+            raise X.Unsupported(f"bytes.decode({enc!r}, errors={err!r}) has no model here")
+        return super().bytes_method(st, obj, name, args, kwargs, node)
+
+
+def ops_int_term(v):
+    from pyvc import ops
+    return ops.int_term(v)
+
+
+RTF_UNICODE_IDS = ["returns#text-of-the-utf16-code-units[runs<=3]"]
+
+
+def rtf_unicode_obligations(repo, tier):
+    import ast
+    import copy
+    from pyvc import loader, verify
+    from pyvc.contracts import Registry
+    from pyvc.exctypes import Universe
+    pre = "C02/rtf_extractor.py::_decode_unicode_run/"
+    fq = f"{RTF}::_decode_unicode_run"
+    try:
+        mod = loader.module(RTF, repo)
+        fname = find_fn(RTF, "_decode_unicode_run", mentions=["findall"], nparams=1)
+        fnode = mod.functions.get(fname)
+        if fnode is None:
+            return {"obligations": _unknown(pre, RTF_UNICODE_IDS, "function not found", fq), "functions": [], "undecided": []}
+        # the pattern whose findall splits the run: a module-level re.compile of the \\uN pattern (any other text: unknown)
+        recv = {x.func.value.id for x in ast.walk(fnode) if isinstance(x, ast.Call) and isinstance(x.func, ast.Attribute) and x.func.attr in ("findall", "finditer")
+                and isinstance(x.func.value, ast.Name)}
+        if len(recv) != 1:
+            raise X.Unsupported(f"escape pattern not identified ({sorted(recv)})")
+        pat = next(iter(recv))
+        src = mod.assigns.get(pat) if hasattr(mod, "assigns") else None
+        ok = isinstance(src, ast.Call) and ast.unparse(src.func) in ("re.compile", "compile") and len(src.args) == 1 and not src.keywords \
+            and isinstance(src.args[0], ast.Constant) and src.args[0].value in U16_PATTERNS
+        if not ok:
+            raise X.Unsupported(f"pattern {pat} is not the \\uN pattern the model describes")
+        reg = Registry()
+        for c in contracts(reg):
+            reg.add(c)
+        reg = copy.copy(reg)
+        reg.fn = {k: v for k, v in reg.fn.items() if not k.startswith(fq)}
+        reg.module_consts = dict(reg.module_consts)
+        reg.module_consts[(RTF, pat)] = VExt("U16Pattern")
+        reg.method_models = dict(reg.method_models)
+
+        def findall(ex, st, obj, args, kwargs, node):
+            outs = []
+            for n in range(ex.MAX_RUN + 1):
+                s2 = st.fork()
+                groups = [z3.String(fresh_name(f"escape{k}.digits")) for k in range(n)]
+                for g in groups:
+                    s2.assume(T.INT_OK(g))
+                s2.ghost["u16"] = [T.INT_VAL(g) % 65536 for g in groups]
+                outs.append((s2, ex.new_list(s2, [VStr(g) for g in groups])))
+            return outs
+        reg.method_models[("U16Pattern", "findall")] = findall
+        P_STR = Maker(lambda ex, st, name: VStr(z3.String(name)), desc="str")
+        con = FnContract(target=fq, params=[(fnode.args.args[0].arg, P_STR)], returns=lambda c: VStr(utf16_text(c.st.ghost.get("u16", []))), raises=[])
+        ex = RtfUnicodeExecutor(mod, reg, Universe(repo))
+        ex.contract = con
+        ex.oid_prefix = pre[:-1]
+        got, _cov = verify.generate(ex, con, mod, fnode)
+        mine = []
+        for ob in got.values():
+            d = dict(verify.discharge(ob, None, getattr(ex, "witness_terms", {})), function=fq)
+            if d["id"].endswith("/returns"):
+                d["id"] = pre + RTF_UNICODE_IDS[0]
+                mine.append(d)
+            elif d["id"].endswith("/raises"):
+                d["id"] = pre + "raises#decoding-never-fails"
+                mine.append(d)
+        have = {o["id"] for o in mine}
+        mine += _unknown(pre, [l for l in RTF_UNICODE_IDS if pre + l not in have], "no verification condition for this clause", fq)
+        return {"obligations": mine, "functions": [], "undecided": []}
+    except Exception as e:  # noqa  (shape not recognised / outside the modelled subset: undecided, the native scope decides)
+        return {"obligations": _unknown(pre, RTF_UNICODE_IDS, f"{type(e).__name__}: {e}", fq), "functions": [], "undecided": []}
+
+
+EXTRA = [bounded_native, fragment_obligations, empty_element_obligations, rtf_unicode_obligations]
 
 
 def known_findings(kf, violations, repo, tier):
